@@ -214,7 +214,18 @@ def rule_D9(body):
     return new, [("D9", "matches!(..) | matches!(..)", "matches!(..) || matches!(..)")]
 
 
-RULES = {"D2": rule_D2, "D5": rule_D5, "D5c": rule_D5c, "D5m": rule_D5m, "D9": rule_D9}
+def rule_D4t(body):
+    """D4 (calls): a fully qualified call through the trait of a re-headed impl,
+    `<Option<&SubtypeElements> as TryInto<PerVisibleRangeConstraints>>::try_into(x)`, is spelled as a call of the
+    re-headed function `range_from_element(x)`.  Every occurrence, at least one."""
+    pat = re.compile(r"<Option<&SubtypeElements>\s+as\s+TryInto<\s*PerVisibleRangeConstraints,?\s*>>::try_into\(")
+    n = len(pat.findall(mask(body)))
+    if n == 0:
+        raise LostAnchor("rule D4t: no qualified TryInto call found")
+    return pat.sub("range_from_element(", body), [("D4", "<Option<&SubtypeElements> as TryInto<PerVisibleRangeConstraints>>::try_into(", "range_from_element(")] * n
+
+
+RULES = {"D2": rule_D2, "D5": rule_D5, "D5c": rule_D5c, "D5m": rule_D5m, "D9": rule_D9, "D4t": rule_D4t}
 
 
 class FnUnit:
